@@ -185,9 +185,9 @@ Definition mkv (a : N) (p q : Z) : validator := {| v_addr := a; v_power := p; v_
 (** static set {1:10, 2:20, 3:30}: NewValidatorSet(...) and its CopyIncrementProposerPriority(1),
     the values MakeGenesisState produces (printed by the real code) *)
 Definition w_vals : valset :=
-  {| vs_vals := [mkv 3 30 (-30); mkv 2 20 20; mkv 1 10 10]; vs_prop := mkv 3 30 (-30) |}.
+  {| vs_vals := [mkv 3 30 (-30); mkv 2 20 20; mkv 1 10 10]; vs_prop := mkv 3 30 (-30); vs_total := 60 |}.
 Definition w_next : valset :=
-  {| vs_vals := [mkv 3 30 0; mkv 2 20 (-20); mkv 1 10 20]; vs_prop := mkv 2 20 (-20) |}.
+  {| vs_vals := [mkv 3 30 0; mkv 2 20 (-20); mkv 1 10 20]; vs_prop := mkv 2 20 (-20); vs_total := 60 |}.
 Definition w_bid (n : N) : blockid := {| b_hash := 1000 + n; b_total := 1; b_phash := 2000 + n |}.
 Definition w_gb : block := {| k_height := 0; k_bid := w_bid 0; k_time := 1600000000; k_ntx := 0; k_app := 0 |}.
 Definition w_g : cstate :=
@@ -218,11 +218,11 @@ Fixpoint H0 (l : list (N * Z)) : N :=
   end.
 Definition PK0 (p lhc : N) : N := p * 1000 + lhc.
 
-Definition sA : valset := {| vs_vals := [mkv 3 30 0; mkv 2 20 0; mkv 1 10 0]; vs_prop := mkv 3 30 0 |}.
+Definition sA : valset := {| vs_vals := [mkv 3 30 0; mkv 2 20 0; mkv 1 10 0]; vs_prop := mkv 3 30 0; vs_total := 60 |}.
 Definition sB : valset :=
-  {| vs_vals := [mkv 3 30 0; mkv 2 20 0; mkv 1 10 0; mkv 4 5 0]; vs_prop := mkv 3 30 0 |}.
+  {| vs_vals := [mkv 3 30 0; mkv 2 20 0; mkv 1 10 0; mkv 4 5 0]; vs_prop := mkv 3 30 0; vs_total := 65 |}.
 Definition sC : valset :=
-  {| vs_vals := [mkv 3 30 0; mkv 2 20 0; mkv 1 10 0; mkv 5 7 0; mkv 4 5 0]; vs_prop := mkv 3 30 0 |}.
+  {| vs_vals := [mkv 3 30 0; mkv 2 20 0; mkv 1 10 0; mkv 5 7 0; mkv 4 5 0]; vs_prop := mkv 3 30 0; vs_total := 72 |}.
 Definition w_blk (n : N) : block :=
   {| k_height := n; k_bid := w_bid n; k_time := 1600000000 + n; k_ntx := 0; k_app := 7000 + n |}.
 Definition w_step (n : N) (ch : bool) (vs : valset) : cstep := {| c_blk := w_blk n; c_changed := ch; c_next := vs |}.
